@@ -65,9 +65,12 @@ class P(Play):
             if t[0] == "B":
                 d = t[3].get("depth")
                 if self.rtc:
-                    prev = depths.setdefault(t[1], d)
-                    if prev != d:
-                        raise Fail("stack-grows", f"step {i}: callback {t[1]} ran at call-stack depth {prev} and later at {d} in one run-to-completion pass")
+                    # the event handed in by the caller may be dispatched from another frame than the queued ones: only the
+                    # queued events (2nd occurrence on) must all run at one depth, however long the chain is
+                    seq = depths.setdefault(t[1], [])
+                    seq.append(d)
+                    if len(seq) >= 3 and seq[-1] != seq[1]:
+                        raise Fail("stack-grows", f"step {i}: callback {t[1]} ran at call-stack depths {seq[:6]}... in one run-to-completion pass (depth must not depend on the position in the queue)")
                 else:
                     if stack and d <= stack[-1][1]:
                         raise Fail("not-nested", f"step {i}: {t[1]} (depth {d}) ran inside {stack[-1][0]} (depth {stack[-1][1]}) without a deeper stack")
